@@ -185,6 +185,7 @@ Proof.
   pose proof (writer_ck_replace items j x y Hj Hl Hne) as Hck. fold items' in Hck.
   unfold load_data. cbn [i_version i_data]. unfold load_dir, replace_file, stored_dir.
   cbn [d_files d_cks d_file].
+  rewrite has_dup_names_of.
   destruct (negb _); [reflexivity|].
   match goal with |- context [open_all ?d ?ns] => destruct (open_all d ns) as [cs|] eqn:E end;
     [|reflexivity].
